@@ -3,6 +3,7 @@
    incl. the pre-attached recipient key and the ECDH-1PU sender key, _guess_sender_key / "skid".
    The random choice of a key (use_random with no kid) and ensure_kid (thumbprint, C13) are outside. *)
 From Model Require Export JweBase JweCrypto JweMsg.
+From Gen Require Import Tables.
 Open Scope N_scope.
 
 (* a Key object as far as resolution is concerned: the primitive-level key, its "kid" and "use" members *)
@@ -81,6 +82,19 @@ Fixpoint attach_keys (o : jobj) (rs : list recip) (idx : nat) (src : ksrc) (ssrc
 Definition set_recips (o : jobj) (rs : list recip) : jobj :=
   {| j_ser := j_ser o; j_prot := j_prot o; j_unprot := j_unprot o; j_aad := j_aad o;
      j_b64prot := j_b64prot o; j_iv := j_iv o; j_ct := j_ct o; j_tag := j_tag o; j_recips := rs |}.
+
+(* ---------- which registry an entry point of jwe.py uses ----------
+   if algorithms: registry = JWERegistry(algorithms=algorithms)   (constructor defaults otherwise)
+   elif registry is None: registry = default_registry
+   The constructor default of verify_all_recipients and the allow-list of default_registry come from
+   gen/Tables.v (jwe_default_verify_all, jwe_default_registry_allowed_drafts). *)
+Definition default_registry : registry :=
+  {| g_allowed := option_map (map asc) jwe_default_registry_allowed_drafts; g_verify_all := jwe_default_verify_all |}.
+Definition jwe_sel (algorithms : option (list str)) (reg : option registry) : registry :=
+  match algorithms with
+  | Some ((_ :: _) as l) => {| g_allowed := Some l; g_verify_all := jwe_default_verify_all |}
+  | _ => match reg with Some r => r | None => default_registry end
+  end.
 
 Section Keys.
 Variable O : oracles.
